@@ -65,6 +65,7 @@ type Contract struct {
 	Modifies    []*Clause
 	Loops       map[int]*LoopSpec
 	Cuts        []*Clause
+	Running     []*Clause
 	ParamNames  []string
 	ParamTypes  []string
 	ResultNames []string
@@ -105,7 +106,7 @@ type PkgSpec struct {
 }
 
 var clauseKW = map[string]bool{"requires": true, "ensures": true, "modifies": true, "loop": true, "allocates": true,
-	"params": true, "vars": true, "pure": true, "trusted": true, "bounded": true, "assumes": true, "maypanic": true, "callers": true, "coupling": true, "model": true, "cut": true}
+	"params": true, "vars": true, "pure": true, "trusted": true, "bounded": true, "assumes": true, "maypanic": true, "callers": true, "coupling": true, "model": true, "cut": true, "running": true}
 
 var headRe = regexp.MustCompile(`^(func|type|lemma|canary|refine)\s+(.*)$`)
 var tagsRe = regexp.MustCompile(`\[(C[0-9]+(?:\s*,\s*C[0-9]+)*)\]`)
@@ -315,6 +316,16 @@ func ParseContractFile(path, pkgPath string) (*PkgSpec, error) {
 			}
 			cur.Cuts = append(cur.Cuts, c)
 			curClause = c
+		case "running":
+			rest := strings.TrimSpace(strings.TrimPrefix(text, "running"))
+			label := fmt.Sprintf("running%d", len(cur.Running))
+			if strings.HasPrefix(rest, "[") {
+				j := strings.Index(rest, "]")
+				label, rest = rest[1:j], strings.TrimSpace(rest[j+1:])
+			}
+			c := &Clause{Kind: "running", Label: label, Raw: rest, Line: ln + 1, Tags: cur.Tags}
+			cur.Running = append(cur.Running, c)
+			curClause = c
 		case "maypanic":
 			cur.MayPanic = true
 		case "coupling":
@@ -434,6 +445,7 @@ func ParseContractFile(path, pkgPath string) (*PkgSpec, error) {
 		con.Requires = append(cp(tc.Requires), con.Requires...)
 		con.Ensures = append(cp(tc.Ensures), con.Ensures...)
 		con.Modifies = append(cp(tc.Modifies), con.Modifies...)
+		con.Running = append(cp(tc.Running), con.Running...)
 		if len(con.Tags) == 0 {
 			con.Tags = tc.Tags
 		}
@@ -956,6 +968,9 @@ func (e *Engine) GenerateOverlay(ps *PkgSpec, pkg *types.Package, fnByKey map[st
 		sort.Ints(lks)
 		for _, c := range con.Cuts {
 			emit(c, con, loopParams, "bool")
+		}
+		for _, c := range con.Running {
+			emit(c, con, us.params, "bool")
 		}
 		for _, k := range lks {
 			ls := con.Loops[k]
